@@ -41,6 +41,18 @@ class Rep(Node):
         self.item, self.lo, self.hi = item, lo, hi
 
 
+class NCGroup(Node):
+    """(?:...) -- groups without capturing"""
+    def __init__(self, items):
+        self.items = items
+
+
+class Absent(Node):
+    """an optional part taken as absent in one expansion: its k capture groups are None"""
+    def __init__(self, k):
+        self.k = k
+
+
 def parse(pat):
     """-> (items, anchored_end).  items: list of Node."""
     pos = 0
@@ -54,6 +66,8 @@ def parse(pat):
             pos += 2
             if d == "d":
                 return Lit(_digit())
+            if d == "s":
+                return Lit(z3.Union(*[z3.Re(z3.StringVal(c)) for c in " \t\n\r\x0b\x0c"]))
             if d in "-.:;$^()[]{}+*?|/\\ ":
                 return Lit(z3.Re(z3.StringVal(d)))
             raise OutOfReach("regex escape \\%s" % d)
@@ -78,11 +92,15 @@ def parse(pat):
             return Lit(z3.Union(*alts) if len(alts) > 1 else alts[0])
         if c == "(":
             pos += 1
+            capturing = True
             if pat[pos] == "?":
-                raise OutOfReach("regex group flags")
+                if pat[pos + 1] != ":":
+                    raise OutOfReach("regex group flags")
+                pos += 2
+                capturing = False
             items = seq(")")
             pos += 1
-            return Group(items)
+            return Group(items) if capturing else NCGroup(items)
         if c == ".":
             pos += 1
             nl = z3.Re(z3.StringVal("\n"))
@@ -97,6 +115,8 @@ def parse(pat):
         items = []
         while pos < n and pat[pos] != stop:
             if pat[pos] == "$" and pos == n - 1 and stop == "\0":
+                break
+            if pat[pos:] == "\\Z" and stop == "\0":
                 break
             a = atom()
             while pos < n and pat[pos] in "?+*{":
@@ -125,14 +145,18 @@ def parse(pat):
         pos = 1
     items = seq("\0")
     anchored = pos < n and pat[pos] == "$"
+    if pos < n and pat[pos:] == "\\Z":
+        anchored = "Z"       # end of text, no trailing-newline tolerance
     return items, anchored
 
 
 def to_re(node):
     if isinstance(node, Lit):
         return node.re
-    if isinstance(node, Group):
+    if isinstance(node, (Group, NCGroup)):
         return seq_re(node.items)
+    if isinstance(node, Absent):
+        return z3.Re(z3.StringVal(""))
     if isinstance(node, Rep):
         r = to_re(node.item)
         if node.hi is None:
@@ -160,6 +184,8 @@ def language(pat):
     """z3 regex of the strings s for which re.match(pat, s) succeeds."""
     items, anchored = parse(pat)
     core = seq_re(items)
+    if anchored == "Z":
+        return core
     if anchored:
         return z3.Concat(core, z3.Option(z3.Re(z3.StringVal("\n"))))
     return z3.Concat(core, z3.Star(ANYCHAR))
@@ -175,9 +201,39 @@ def count_groups(items):
     for x in items:
         if isinstance(x, Group):
             n += 1 + count_groups(x.items)
+        elif isinstance(x, NCGroup):
+            n += count_groups(x.items)
+        elif isinstance(x, Absent):
+            n += x.k
         elif isinstance(x, Rep):
             n += count_groups([x.item])
     return n
+
+
+def expansions(items):
+    """the item list with every optional part that contains capture groups taken as present or absent, and non-capturing
+    groups inlined; None when a construct with captures cannot be expanded (repetition other than ?)"""
+    outs = [[]]
+    for x in items:
+        if isinstance(x, NCGroup) and count_groups(x.items):
+            subs = expansions(x.items)
+            if subs is None:
+                return None
+            outs = [o + sub for o in outs for sub in subs]
+        elif isinstance(x, Rep) and count_groups([x.item]):
+            if not (x.lo == 0 and x.hi == 1):
+                return None
+            subs = expansions([x.item])
+            if subs is None:
+                return None
+            outs = [o + [Absent(count_groups([x.item]))] for o in outs] + [o + sub for o in outs for sub in subs]
+        elif isinstance(x, Group) and count_groups(x.items):
+            return None
+        else:
+            outs = [o + [x] for o in outs]
+        if len(outs) > 16:
+            return None
+    return outs
 
 
 def subject_language(I, s):
@@ -231,8 +287,8 @@ def match_symbolic(I, pat, s):
         if al is not None:
             return al
     if any(isinstance(x, Rep) and count_groups([x.item]) for x in items) or \
-            any(isinstance(x, Group) and count_groups(x.items) for x in items):
-        raise OutOfReach("nested / repeated capture groups")
+            any(isinstance(x, (Group, NCGroup)) and count_groups(x.items) for x in items):
+        raise OutOfReach("nested / repeated / optional capture groups on a text whose pieces are not known")
     segs = []
     groups = []
     for k, x in enumerate(items):
@@ -242,7 +298,9 @@ def match_symbolic(I, pat, s):
         if isinstance(x, Group):
             groups.append(Sym(VStr(v)))
     tail = I.fresh("re_tail", StrS)
-    if anchored:
+    if anchored == "Z":
+        P.assume(tail == z3.StringVal(""))
+    elif anchored:
         P.assume(z3.Or(tail == z3.StringVal(""), tail == z3.StringVal("\n")))
     P.assume(s == z3.Concat(*(segs + [tail])))
     return groups
@@ -309,14 +367,26 @@ def align(I, items, anchored, s):
     languages and each top-level pattern item covers a whole number of consecutive pieces (language inclusion, checked).
     The patterns of the repository are unambiguous (runs over one alphabet delimited by characters outside it), so a
     valid assignment is the one CPython reports (assumed; sampled natively by the number oracle).  None: no such alignment."""
-    if any(isinstance(x, Group) and count_groups(x.items) for x in items) or any(isinstance(x, Rep) and count_groups([x.item]) for x in items):
+    exps = expansions(items)
+    if exps is None:
         return None
     ps = pieces_of(s)
     langs = [piece_language(I, p) for p in ps]
     if any(l is None for l in langs):
         return None
     eps = z3.Re(z3.StringVal(""))
-    tail_lang = z3.Option(z3.Re(z3.StringVal("\n"))) if anchored else z3.Star(ANYCHAR)
+    tail_lang = eps if anchored == "Z" else (z3.Option(z3.Re(z3.StringVal("\n"))) if anchored else z3.Star(ANYCHAR))
+    results = []
+    for items in exps:
+        r = _align_one(items, ps, langs, eps, tail_lang)
+        if r is not None:
+            results.append(r)
+    if len(results) != 1:
+        return None          # no expansion fits, or the optional parts are ambiguous on this text
+    return results[0]
+
+
+def _align_one(items, ps, langs, eps, tail_lang):
     found = []
 
     def cat(a, b):
@@ -347,4 +417,6 @@ def align(I, items, anchored, s):
             sub = ps[a:b]
             t = z3.StringVal("") if not sub else (z3.Concat(*sub) if len(sub) > 1 else sub[0])
             groups.append(Sym(VStr(t)))
+        elif isinstance(x, Absent):
+            groups.extend([None] * x.k)
     return groups
